@@ -1,9 +1,310 @@
-import Gzx.Util
+/-
+  Line protocol of suite `c16`.
+
+    c16 wm <ctor>;<op>;<op>…     BitMatrix sequence on the WORD model
+    c16 sm <ctor>;<op>;<op>…     the same sequence on the SPEC model
+    c16 wa <ctor>;<op>;…         BitArray sequence on the WORD model
+    c16 sa <ctor>;<op>;…         the same on the SPEC model
+
+  A token is `name,arg,arg…` (no blanks).  The answer is one string per token joined by `|`:
+  `<answer>@<state>`; `<answer>` is `ok`, a query result, or `ERR:illegalarg`; a panic prints
+  `PANIC` and ends the sequence (the state is unspecified afterwards).
+  Matrix state: `w,h,rowSize:<row words hex>/…;E=<rect>;TL=<pt>;BR=<pt>` (the three whole-matrix
+  queries are part of the state string so they are compared after every step).
+  Array state: `size,sizeInBytes:<words hex>` with zero words beyond ceil(size/32) dropped (spare
+  capacity is an allocation policy, not part of the container's value).
+  Literals: array `E<01…>` (NewEmptyBitArray + AppendBit) / `N<01…>` (NewBitArray(n) + Set), `-` = nil;
+  matrix `w:h:<01… row major>`; byte strings in hex (`-` = empty).
+-/
+import Gzx.Model.Bits
 namespace Gzx.Driver.C16
-open Gzx
+open Gzx Gzx.Bits
+
+def hex32 (w : Nat) : String :=
+  String.ofList [hexDigit ((w / 268435456) % 16), hexDigit ((w / 16777216) % 16),
+    hexDigit ((w / 1048576) % 16), hexDigit ((w / 65536) % 16), hexDigit ((w / 4096) % 16),
+    hexDigit ((w / 256) % 16), hexDigit ((w / 16) % 16), hexDigit (w % 16)]
+
+def hexWords (ws : List Nat) : String := String.join (ws.map hex32)
+
+/-- little-endian packing of a bit list into 32-bit words (driver-side canonical form of the spec state) -/
+def packFuel : Nat → List Bool → List Nat
+  | 0, _ => []
+  | fuel + 1, bs =>
+    if bs.isEmpty then []
+    else (bs.take 32).foldr (fun b acc => 2 * acc + b.toNat) 0 :: packFuel fuel (bs.drop 32)
+
+def packBits (bs : List Bool) : List Nat := packFuel (bs.length + 1) bs
+
+def showOptPt (tag : String) : Option (List Nat) → String
+  | none => tag ++ "=nil"
+  | some xs => tag ++ "=" ++ showNatList xs
+
+def nat! (s : String) : Nat := (parseNat? s).getD 0
+def hex! (s : String) : List Nat := (parseHex? s).getD []
+def showHexS (bs : List Nat) : String := showHex bs
+
+/-! ### literals -/
+
+inductive ArrLit where
+  | nil
+  | viaEmpty (bits : List Bool)
+  | viaNew (bits : List Bool)
+
+def parseArrLit (s : String) : ArrLit :=
+  if s == "-" then .nil
+  else if s.startsWith "E" then .viaEmpty (parseBits (s.drop 1).toString)
+  else .viaNew (parseBits (s.drop 1).toString)
+
+def ArrLit.bits : ArrLit → Option (List Bool)
+  | .nil => none
+  | .viaEmpty b => some b
+  | .viaNew b => some b
+
+/-- build the literal with the word-level operations the harness uses on the real type -/
+def wArrOfLit : ArrLit → Res (Option WArr)
+  | .nil => .ok none
+  | .viaEmpty bits => (bits.foldlM (fun (a : WArr) b => a.appendBit b) WArr.empty).map some
+  | .viaNew bits =>
+    ((bits.zipIdx).foldlM (fun (a : WArr) (p : Bool × Nat) => if p.1 then a.set p.2 else pure a) (WArr.new bits.length)).map some
+
+def chunkRows (w h : Nat) (bits : List Bool) : List (List Bool) :=
+  (List.range h).map (fun y => (bits.drop (y * w)).take w)
+
+/-- matrix literal `w:h:bits` → (w, h, rows) -/
+def parseMatLit (s : String) : Nat × Nat × List (List Bool) :=
+  match s.splitOn ":" with
+  | [w, h, bits] => (nat! w, nat! h, chunkRows (nat! w) (nat! h) (parseBits bits))
+  | _ => (0, 0, [])
+
+def wMatOfLit (l : Nat × Nat × List (List Bool)) : Res WMat :=
+  match WMat.new l.1 l.2.1 with
+  | .error e => .error e
+  | .ok m0 =>
+    (l.2.2.zipIdx).foldlM (fun m (r, y) =>
+      (r.zipIdx).foldlM (fun m (b, x) => if b then m.set x y else pure m) m) m0
+
+/-! ### state strings -/
+
+def rowsOfWords (rs : Nat) : Nat → List Nat → List String
+  | 0, _ => []
+  | h + 1, ws => hexWords (ws.take rs) :: rowsOfWords rs h (ws.drop rs)
+
+def wMatState (m : WMat) : String :=
+  let q (r : Res (Option (List Nat))) (tag : String) : String :=
+    match r with
+    | .ok v => showOptPt tag v
+    | .error e => tag ++ "=ERR:" ++ e.tag
+  s!"{m.width},{m.height},{m.rowSize}:" ++ "/".intercalate (rowsOfWords m.rowSize m.height m.words) ++
+    ";" ++ q m.getEnclosingRectangle "E" ++ ";" ++ q m.getTopLeftOnBit "TL" ++ ";" ++ q m.getBottomRightOnBit "BR"
+
+def sMatState (m : SMat) : String :=
+  s!"{m.width},{m.height},{(m.width + 31) / 32}:" ++
+    "/".intercalate (m.rows.map (fun r => hexWords (packBits r))) ++
+    ";" ++ showOptPt "E" m.enclosingRectangle ++ ";" ++ showOptPt "TL" m.topLeftOnBit ++
+    ";" ++ showOptPt "BR" m.bottomRightOnBit
+
+/-- drop zero words beyond ceil(size/32) -/
+def canonWords (size : Nat) (ws : List Nat) : List Nat :=
+  let n := (size + 31) / 32
+  ws.take n ++ ((ws.drop n).reverse.dropWhile (fun w => w == 0)).reverse
+
+def wArrCanon (a : WArr) : String :=
+  s!"{a.getSize},{a.getSizeInBytes}:" ++ hexWords (canonWords a.size a.words)
+
+def wArrState (a : WArr) : String := wArrCanon a
+
+def sArrState (a : SArr) : String :=
+  s!"{SArr.size a},{SArr.sizeInBytes a}:" ++ hexWords (packBits a)
+
+/-! ### step results -/
+
+inductive Step (σ : Type) where
+  | next (answer : String) (s : σ)     -- answer + (possibly new) state
+  | stop (answer : String)             -- panic: sequence ends
+
+def mutS {σ} (old : σ) : Res σ → Step σ
+  | .ok s => .next "ok" s
+  | .error (.panic _) => .stop "PANIC"
+  | .error e => .next ("ERR:" ++ e.tag) old
+
+def qryS {σ α} (old : σ) (f : α → String) : Res α → Step σ
+  | .ok a => .next (f a) old
+  | .error (.panic _) => .stop "PANIC"
+  | .error e => .next ("ERR:" ++ e.tag) old
+
+def b01 (b : Bool) : String := if b then "1" else "0"
+
+/-! ### matrix, word model -/
+
+def wmCtor (t : List String) : Res WMat :=
+  match t with
+  | ["new", w, h] => WMat.new (nat! w) (nat! h)
+  | ["sq", d] => WMat.new (nat! d) (nat! d)
+  | ["pb", rows] => WMat.ofBoolMap (if rows.isEmpty then [] else (rows.splitOn "/").map parseBits)
+  | ["ps", s, a, b] => WMat.parse (hex! s) (hex! a) (hex! b)
+  | _ => .error .format
+
+def wmStep (m : WMat) (t : List String) : Step WMat :=
+  match t with
+  | ["get", x, y] => qryS m b01 (m.get (nat! x) (nat! y))
+  | ["at", x, y] => qryS m toString (m.atGray (nat! x) (nat! y))
+  | ["set", x, y] => mutS m (m.set (nat! x) (nat! y))
+  | ["unset", x, y] => mutS m (m.unset (nat! x) (nat! y))
+  | ["flip", x, y] => mutS m (m.flip (nat! x) (nat! y))
+  | ["flipAll"] => mutS m m.flipAll
+  | ["clear"] => .next "ok" m.clear
+  | ["rot180"] => mutS m m.rotate180
+  | ["rot90"] => mutS m m.rotate90
+  | ["xor", lit] =>
+    match wMatOfLit (parseMatLit lit) with
+    | .ok mask => mutS m (m.xor mask)
+    | .error _ => .stop "bad-literal"
+  | ["setRegion", l, tp, w, h] => mutS m (m.setRegion (nat! l) (nat! tp) (nat! w) (nat! h))
+  | ["getRow", y, lit] =>
+    match wArrOfLit (parseArrLit lit) with
+    | .ok row => qryS m wArrState (m.getRow (nat! y) row)
+    | .error _ => .stop "bad-literal"
+  | ["setRow", y, lit] =>
+    match wArrOfLit (parseArrLit lit) with
+    | .ok (some row) => mutS m (m.setRow (nat! y) row)
+    | _ => .stop "bad-literal"
+  | ["toStr", a, b, sep] => qryS m showHexS (m.toStr (hex! a) (hex! b) (hex! sep))
+  | _ => .stop "bad-op"
+
+/-! ### matrix, spec model -/
+
+def smCtor (t : List String) : Res SMat :=
+  match t with
+  | ["new", w, h] => SMat.new (nat! w) (nat! h)
+  | ["sq", d] => SMat.new (nat! d) (nat! d)
+  | ["pb", rows] => SMat.ofBoolMap (if rows.isEmpty then [] else (rows.splitOn "/").map parseBits)
+  | ["ps", s, a, b] => SMat.parse (hex! s) (hex! a) (hex! b)
+  | _ => .error .format
+
+def smStep (m : SMat) (t : List String) : Step SMat :=
+  match t with
+  | ["get", x, y] => .next (b01 (m.get (nat! x) (nat! y))) m
+  | ["at", x, y] => .next (toString (m.atGray (nat! x) (nat! y))) m
+  | ["set", x, y] => .next "ok" (m.set (nat! x) (nat! y))
+  | ["unset", x, y] => .next "ok" (m.unset (nat! x) (nat! y))
+  | ["flip", x, y] => .next "ok" (m.flip (nat! x) (nat! y))
+  | ["flipAll"] => .next "ok" m.flipAll
+  | ["clear"] => .next "ok" m.clear
+  | ["rot180"] => .next "ok" m.rotate180
+  | ["rot90"] => .next "ok" m.rotate90
+  | ["xor", lit] =>
+    let l := parseMatLit lit
+    mutS m (m.xor ⟨l.1, l.2.1, l.2.2⟩)
+  | ["setRegion", l, tp, w, h] => mutS m (m.setRegion (nat! l) (nat! tp) (nat! w) (nat! h))
+  | ["getRow", y, lit] =>
+    let r := m.getRow (nat! y) (parseArrLit lit).bits
+    .next (sArrState r) m
+  | ["setRow", y, lit] =>
+    match (parseArrLit lit).bits with
+    | some row => .next "ok" (m.setRow (nat! y) row)
+    | none => .stop "bad-literal"
+  | ["toStr", a, b, sep] => .next (showHexS (m.toStr (hex! a) (hex! b) (hex! sep))) m
+  | _ => .stop "bad-op"
+
+/-! ### array, word model -/
+
+def waCtor (t : List String) : Res WArr :=
+  match t with
+  | ["empty"] => .ok WArr.empty
+  | ["new", n] => .ok (WArr.new (nat! n))
+  | _ => .error .format
+
+def waStep (a : WArr) (t : List String) : Step WArr :=
+  match t with
+  | ["get", i] => qryS a b01 (a.get (nat! i))
+  | ["set", i] => mutS a (a.set (nat! i))
+  | ["flip", i] => mutS a (a.flip (nat! i))
+  | ["nextSet", f] => qryS a toString (a.getNextSet (nat! f))
+  | ["nextUnset", f] => qryS a toString (a.getNextUnset (nat! f))
+  | ["setBulk", i, v] => mutS a (a.setBulk (nat! i) (nat! v))
+  | ["setRange", s, e] => mutS a (a.setRange (nat! s) (nat! e))
+  | ["clear"] => .next "ok" a.clear
+  | ["isRange", s, e, v] => qryS a b01 (a.isRange (nat! s) (nat! e) (v == "1"))
+  | ["appendBit", b] => mutS a (a.appendBit (b == "1"))
+  | ["appendBits", v, n] => mutS a (a.appendBits (nat! v) (nat! n))
+  | ["appendArr", lit] =>
+    match wArrOfLit (parseArrLit lit) with
+    | .ok (some o) => mutS a (a.appendBitArray o)
+    | _ => .stop "bad-literal"
+  | ["appendSelf"] => mutS a (a.appendBitArray a)
+  | ["xor", lit] =>
+    match wArrOfLit (parseArrLit lit) with
+    | .ok (some o) => mutS a (a.xor o)
+    | _ => .stop "bad-literal"
+  | ["xorSelf"] => mutS a (a.xor a)
+  | ["toBytes", bo, arr, off, n] => qryS a showHexS (a.toBytes (nat! bo) (hex! arr) (nat! off) (nat! n))
+  | ["reverse"] => mutS a a.reverse
+  | ["str"] => qryS a showHexS a.toStr
+  | _ => .stop "bad-op"
+
+/-! ### array, spec model -/
+
+def saCtor (t : List String) : Res SArr :=
+  match t with
+  | ["empty"] => .ok []
+  | ["new", n] => .ok (List.replicate (nat! n) false)
+  | _ => .error .format
+
+def saStep (a : SArr) (t : List String) : Step SArr :=
+  match t with
+  | ["get", i] => .next (b01 (SArr.get a (nat! i))) a
+  | ["set", i] => .next "ok" (SArr.set a (nat! i))
+  | ["flip", i] => .next "ok" (SArr.flip a (nat! i))
+  | ["nextSet", f] => .next (toString (SArr.nextSet a (nat! f))) a
+  | ["nextUnset", f] => .next (toString (SArr.nextUnset a (nat! f))) a
+  | ["setBulk", i, v] => .next "ok" (SArr.setBulk a (nat! i) (nat! v))
+  | ["setRange", s, e] => mutS a (SArr.setRange a (nat! s) (nat! e))
+  | ["clear"] => .next "ok" (SArr.clear a)
+  | ["isRange", s, e, v] => qryS a b01 (SArr.isRange a (nat! s) (nat! e) (v == "1"))
+  | ["appendBit", b] => .next "ok" (SArr.appendBit a (b == "1"))
+  | ["appendBits", v, n] => mutS a (SArr.appendBits a (nat! v) (nat! n))
+  | ["appendArr", lit] =>
+    match (parseArrLit lit).bits with
+    | some o => .next "ok" (SArr.appendBitArray a o)
+    | none => .stop "bad-literal"
+  | ["appendSelf"] => .next "ok" (SArr.appendBitArray a a)
+  | ["xor", lit] =>
+    match (parseArrLit lit).bits with
+    | some o => mutS a (SArr.xor a o)
+    | none => .stop "bad-literal"
+  | ["xorSelf"] => mutS a (SArr.xor a a)
+  | ["toBytes", bo, arr, off, n] => .next (showHexS (SArr.toBytes a (nat! bo) (hex! arr) (nat! off) (nat! n))) a
+  | ["reverse"] => .next "ok" (SArr.reverse a)
+  | ["str"] => .next (showHexS (SArr.toStr a)) a
+  | _ => .stop "bad-op"
+
+/-! ### sequence runner -/
+
+def runSeq {σ} (step : σ → List String → Step σ) (showSt : σ → String) :
+    List String → σ → List String → List String
+  | [], _, acc => acc.reverse
+  | t :: ts, s, acc =>
+    match step s (t.splitOn ",") with
+    | .next ans s' => runSeq step showSt ts s' ((ans ++ "@" ++ showSt s') :: acc)
+    | .stop ans => (ans :: acc).reverse
+
+def runAll {σ} (ctor : List String → Res σ) (step : σ → List String → Step σ) (showSt : σ → String)
+    (seq : String) : String :=
+  match seq.splitOn ";" with
+  | [] => "bad-op"
+  | c :: ops =>
+    match ctor (c.splitOn ",") with
+    | .error (.panic _) => "PANIC"
+    | .error e => "ERR:" ++ e.tag
+    | .ok s => "|".intercalate (runSeq step showSt ops s ["ok@" ++ showSt s])
 
 /-- line-protocol handler of suite `c16` (arguments after the suite name) -/
 def handle : List String → String
+  | ["wm", seq] => runAll wmCtor wmStep wMatState seq
+  | ["sm", seq] => runAll smCtor smStep sMatState seq
+  | ["wa", seq] => runAll waCtor waStep wArrState seq
+  | ["sa", seq] => runAll saCtor saStep sArrState seq
   | _ => "bad-op"
 
 end Gzx.Driver.C16
